@@ -745,6 +745,18 @@ impl<'a> Driver<'a> {
                 }
             }
             // (after a hang the blocked thread may hold map guards: do not touch the cache any more)
+            // A thread that sits at a send (parked there, or blocked in it) may be keeping a map guard alive (an artefact of parking
+            // it there, or the real thing): the projection would then block the controller for ever. Probe it from a helper thread
+            // first; if the store cannot be read, the run ends here and everything is released: a deadlock that is real shows then.
+            if hang.is_none() && !imprecise {
+                let at_send = ctl.blocked.is_some() || roles.iter().any(|role| matches!(sched.status(role), Some(Status::Parked { site, .. }) if site == "C_Send"));
+                if at_send {
+                    let (probe_sender, probe_receiver) = std::sync::mpsc::channel();
+                    let probe_cache = cache.clone();
+                    std::thread::spawn(move || { let _ = probe_cache.verif_snapshot(&|key| *key as i64, &|value| *value as i64); let _ = probe_sender.send(()); });
+                    if probe_receiver.recv_timeout(Duration::from_secs(3)).is_err() { imprecise = true; }
+                }
+            }
             if hang.is_none() && !imprecise { state = ctl.state(); }
             for entry in &state.kw { id_key.insert(entry.id, entry.k); }
             self.emit(&StepRec {
